@@ -18,7 +18,10 @@ def dissect_failsafe(f):
     def _fail_wrapper(*args, **kwargs):
         try:
             return f(*args, **kwargs)
-        except struct.error:
+        except (struct.error, ValueError):
+            # struct.error: the PDU cannot be dissected, ValueError: a field
+            # holds a value its packet counterpart cannot take (e.g. an
+            # endianness or modulation outside the known ones)
             logger = logging.getLogger(f.__qualname__)
             logger.debug("Parsing error while converting message %s to packet !", args[0])
             return None
